@@ -142,6 +142,9 @@ def schedules(fam):
         out.append(S(fam, "stalecache", [opn("c1"), tk('"t1"'), dict(sub("c1", "a"), **st), Q, call("b"), tk('"t2"'),
                                          dict(reply("access", "b"), **st), dict(reply("call", "b"), **st), Q,
                                          call("b"), dict(reply("call", "b"), **st), dict(reply("access", "b", out="deny"), **st), Q]))
+        # a call sent after the token change joins the access request that was in flight before it
+        out.append(S(fam, "stalejoin", [opn("c1"), tk('"t1"'), dict(sub("c1", "a"), **st), Q, call("b"), tk('"t2"'), call("b"),
+                                        dict(reply("access", "b"), **st), dict(reply("call", "b"), **st), dict(reply("call", "b"), **st), Q]))
         # the same with a reaccess event as the trigger
         out.append(S(fam, "stalecache2", [opn("c1"), tk('"t1"'), dict(sub("c1", "a"), **st), Q, call("b"), ev("b", "reaccess", **st),
                                           dict(reply("access", "b"), **st), dict(reply("call", "b"), **st), Q,
